@@ -224,6 +224,8 @@ def run(ctx):
     ctx.import_prop("C03")
     ctx.import_prop("C15")
     ctx.import_prop("C20")
+    # "for every boot information made of spec-conformant tags": one that load() accepts - its exit chain and end-tag predicate
+    ctx.import_prop("C02", only=lambda o: o.rule in ("A2", "A3"), label="well-formed boot informations load")
     ctx.note("first-match selection is Iterator::find over the walk of C03; the decoded values' meaning is out of scope; iterator-based decoders are C18/C19; strings C17")
     return ctx.finish(
         "other",
